@@ -170,12 +170,12 @@ func NewTD(rec *Recorder, sc *Scenario) *TD {
 	d := &TD{rec: rec, sc: sc, rng: rand.New(rand.NewSource(sc.Seed)), counts: map[string]int{}, gateOps: map[string][]Op{},
 		answered: map[int]bool{}, gateParts: map[string]bool{}, gateSig: map[string]bool{}, gateDone: true}
 	d.spy = NewSpy()
-	d.spy.OnCall = func(kind string, ord int, ok bool, in, out string, gs *pokerface.GameState, o *pokerface.GameOptions) {
+	d.spy.OnCall = func(kind string, ord int, ok bool, in, out string, gs *pokerface.GameState, o *pokerface.GameOptions, amt int64) {
 		if d.isDead() {
 			return
 		}
 		a := mkArgs()
-		a.Kind, a.Gc, a.Note = kind, ord, in+">"+out
+		a.Kind, a.Gc, a.Note, a.Amt = kind, ord, in+">"+out, amt
 		if o != nil {
 			a.Blind = []int64{o.Ante, o.Blind.Dealer, o.Blind.SB, o.Blind.BB}
 			for i, p := range o.Players {
